@@ -5,8 +5,8 @@
    G M = I and M = M^T are consequences (theorem 1).  All theorems hold for every ordered field F (Qc executed, R). *)
 From Coq Require Import ZArith QArith Qcanon List Bool Arith.
 From QV.Core Require Import OF QcOF Sums Mat.
-From QV.Model Require Import C09_LinEst.
-From QV.Proofs Require Import C09_LinEst C09_Rank C09_Witness.
+From QV.Model Require Import C09_LinEst C09_History.
+From QV.Proofs Require Import C09_LinEst C09_Rank C09_History C09_Witness.
 Import ListNotations.
 
 (* 1. the left-inverse certificate alone gives the two-sided inverse and its symmetry *)
@@ -195,6 +195,41 @@ Theorem C09_map_is_sequence : forall (F : OF) m n (A : @mat F) (b : list F) (sq 
 Proof. exact map_is_sequence. Qed.
 Print Assumptions C09_map_is_sequence.
 
+(* 13b. ONE estimator object serving a HISTORY of jobs (any tomographies — i.e. any (m, n, matA, vecB) — and any data, in
+        any order; Model/C09_History.v threads the object's state, which is empty in the code, explicitly):
+        the results are the results of the jobs on fresh objects; the result of a job does not depend on its position or
+        on the other jobs; exact data of v return v at any position of any history.  Tied to the code by the sub-check
+        `history` (every result of a re-used estimator object vs [run_job] of that job alone). *)
+Theorem C09_history_is_map : forall (F : OF) (st : est_state) (jobs : list (job F)),
+  run_history st jobs = map run_job jobs.
+Proof. exact history_is_map. Qed.
+Print Assumptions C09_history_is_map.
+
+Theorem C09_history_position_independent : forall (F : OF) (st : est_state) (pre post : list (job F)) (j : job F),
+  nth_error (run_history st (pre ++ j :: post)) (length pre) = Some (run_job j).
+Proof. exact history_position_independent. Qed.
+Print Assumptions C09_history_position_independent.
+
+Theorem C09_history_same_job_same_result : forall (F : OF) (st st' : est_state) (pre post pre' post' : list (job F)) (j : job F),
+  nth_error (run_history st (pre ++ j :: post)) (length pre) =
+  nth_error (run_history st' (pre' ++ j :: post')) (length pre').
+Proof. exact history_same_job_same_result. Qed.
+Print Assumptions C09_history_same_job_same_result.
+
+Theorem C09_history_exact_recovery : forall (F : OF) (st : est_state) (pre post : list (job F)) (j : job F) xs (v : @vec F),
+  nth_error (run_history st (pre ++ j :: post)) (length pre) = Some (E_ok xs) ->
+  Forall2 (fun ds x => forall f, flat_ok F (j_m j) ds f -> veq (j_m j) (vofl f) (predict (j_n j) (j_A j) (vofl (j_b j)) v) ->
+                       length x = j_n j /\ veq (j_n j) (vofl x) v) (j_sq j) xs.
+Proof. exact history_exact_recovery. Qed.
+Print Assumptions C09_history_exact_recovery.
+
+(* 13c. the result is a function of the CONTENTS of matA (its m x n entries), vecB and the data, not of the object that
+        supplies them: entrywise equal matA -> identical results, error branches included *)
+Theorem C09_estimate_function_of_contents : forall (F : OF) m n (A A' : @mat F) (b : list F) (sq : list (dataset F)),
+  meq m n A A' -> calc_estimate_sequence m n A b sq = calc_estimate_sequence m n A' b sq.
+Proof. exact calc_estimate_sequence_ext. Qed.
+Print Assumptions C09_estimate_function_of_contents.
+
 (* 14. the sample counts attached to the data do not influence the result (values and error branches alike).
        In the model the counts ARE an argument (first component of every pair), as in the code. *)
 Theorem C09_sample_counts_irrelevant : forall (F : OF) m n (A : @mat F) (b : list F) (sq sq' : list (dataset F)),
@@ -251,3 +286,8 @@ Proof. exact ex_wide_fixed. Qed.
 (* the hypothesis of 12e is satisfiable: the 5 x 2 instance passes the repaired guard *)
 Example C09_example_guard_passes : coded_guard (F:=Qc_OF) 5 2 exA = true.
 Proof. exact ex_guard. Qed.
+(* a history on concrete data: the unequal-counts job between two wide (raising) jobs still returns its own result *)
+Example C09_example_history :
+  nth_error (run_history (F:=Qc_OF) tt [mkJob 1 2 wA [q 0 1] [[(1%Z, [q 1 1])]]; mkJob 5 2 exA exb [exds]; mkJob 1 2 wA [q 0 1] [[(1%Z, [q 1 1])]]]) 1
+  = Some (run_job (mkJob 5 2 exA exb [exds])).
+Proof. exact (C09_history_position_independent Qc_OF tt [mkJob 1 2 wA [q 0 1] [[(1%Z, [q 1 1])]]] [mkJob 1 2 wA [q 0 1] [[(1%Z, [q 1 1])]]] (mkJob 5 2 exA exb [exds])). Qed.
